@@ -221,7 +221,9 @@ bool FIXReader::read(f8String& to)	// read a complete FIX message
 				throw IllegalMessage(msg_buf, FILE_LINE);
 			msg_buf[offs++] = bt;
 		}
-		while (bt != default_field_separator && offs < _max_msg_len);
+		while (bt != default_field_separator && offs < _bg_sz + _max_bodylen_digits);
+		if (bt != default_field_separator)	// BodyLength never terminated: don't let it overrun the tag/value buffers below
+			throw IllegalMessage(f8String(msg_buf, offs), FILE_LINE);
 		to.assign(msg_buf, offs);
 
 		char tag[MAX_MSGTYPE_FIELD_LEN], val[FIX8_MAX_FLD_LENGTH];
